@@ -38,8 +38,21 @@ structure Plugin where
   identitySuccess : Bool               -- `VerificationResults[SIGNATURE_VERIFIER.TRUSTED_IDENTITY].Success` of its answer
   deriving Repr, FromJson, ToJson
 
+/-- one statement of the trust policy document, as far as the choice of the identity list goes -/
+structure Statement where
+  name : Text                          -- `Name`
+  isGlobal : Bool                      -- `GlobalPolicy` (blob documents only)
+  identities : List Identity           -- `TrustedIdentities`
+  deriving Repr, FromJson, ToJson
+
 structure Input where
-  identities : List Identity
+  /-- the statements of the trust policy document the verifier holds, in document order -/
+  statements : List Statement
+  /-- `some n`: `VerifyBlob` over a blob document with `TrustPolicyName = n` (the empty name asks
+  for the global statement). `none`: `Verify` over an OCI document; there the statement is chosen
+  by registry scope (property C08) and the harness's OCI documents hold exactly one statement,
+  scoped `*`. -/
+  policyName : Option Text
   chain : List DN                      -- subjects of the signing chain, leaf first
   minted : List Attr                   -- ground truth: the attributes the leaf certificate was minted with
   /-- `none`: the signature names no verification plugin. The claim of the property: unless the
@@ -65,6 +78,54 @@ def aliasFrom : Text := ['S']
 def aliasTo : Text := ['S', 'T']
 def mandatory : List Text := [['C'], ['S', 'T'], ['O']]
 def leafIndex : Nat := 0
+
+/-! ### which statement's identity list is applied (verifier/trustpolicy/blob.go) -/
+
+/-- `unicode.IsSpace` -/
+def goSpace (c : Char) : Bool :=
+  let n := c.toNat
+  (9 ≤ n && n ≤ 13) || n == 0x20 || n == 0x85 || n == 0xA0 || n == 0x1680 ||
+  (0x2000 ≤ n && n ≤ 0x200A) || n == 0x2028 || n == 0x2029 || n == 0x202F || n == 0x205F || n == 0x3000
+
+/-- `strings.TrimSpace(s) == ""` -/
+def blank (s : Text) : Bool := s.all goSpace
+
+/-- `BlobDocument.GetApplicableTrustPolicy`'s loop: the first statement whose name IS the given
+name - the same characters, letter case and white space included -/
+def byName (n : Text) : List Statement → Option Statement
+  | [] => none
+  | s :: r => if s.name = n then some s else byName n r
+
+/-- `BlobDocument.GetGlobalTrustPolicy`: the first statement marked global -/
+def globalOf : List Statement → Option Statement
+  | [] => none
+  | s :: r => if s.isGlobal then some s else globalOf r
+
+/-- the statement `VerifyBlob` / `Verify` hands to `processSignature`; `none`: no applicable
+statement, the call returns without an outcome -/
+def applicable (i : Input) : Option Statement :=
+  match i.policyName with
+  | none => i.statements.head?
+  | some n =>
+    if n.isEmpty then globalOf i.statements
+    else if blank n then none                 -- "policy name cannot be empty"
+    else byName n i.statements
+
+/-- the identity list that decides: the one of the applicable statement, and of no other -/
+def Input.identities (i : Input) : List Identity :=
+  match applicable i with
+  | some s => s.identities
+  | none => []
+
+/-- the input of the OCI route: one statement (scoped `*` by the harness) with the given list -/
+def ociInput (ids : List Identity) (chain : List DN) (minted : List Attr) (plugin : Option Plugin) : Input :=
+  { statements := [{ name := ['c', '0', '4'], isGlobal := false, identities := ids }], policyName := none,
+    chain := chain, minted := minted, plugin := plugin }
+
+@[simp] theorem identities_ociInput (ids : List Identity) (chain : List DN) (minted : List Attr) (plugin : Option Plugin) :
+    (ociInput ids chain minted plugin).identities = ids := rfl
+@[simp] theorem chain_ociInput (ids : List Identity) (chain : List DN) (minted : List Attr) (plugin : Option Plugin) :
+    (ociInput ids chain minted plugin).chain = chain := rfl
 
 /-! ### string helpers -/
 
@@ -202,9 +263,16 @@ def pluginVerdict (i : Input) : Bool :=
 /-- `processSignature`: trust-store authenticity passed (the harness arranges that). Unless a
 plugin owns the trusted-identity capability the native check runs and its error overwrites the
 authenticity result; otherwise the plugin's verdict does (`processPluginResponse`). -/
-def run (i : Input) : Obs :=
+def process (i : Input) : Obs :=
   if nativeCheck i then { pass := verifyIdentities i.identities i.chain }
   else { pass := pluginVerdict i }
+
+/-- `VerifyBlob` / `Verify`: without an applicable statement there is no outcome, hence nothing that
+passes; otherwise the signature is processed under the identity list of that statement -/
+def run (i : Input) : Obs :=
+  match applicable i with
+  | none => { pass := false }
+  | some _ => process i
 
 /-! ### specification (declarative, on attribute sets) -/
 
@@ -307,10 +375,16 @@ def mintedClauses (i : Input) (o : Obs) : Clauses :=
 def guarded (g : Bool) (cs : Clauses) : Clauses := cs.map (fun c => (c.1, !g || c.2))
 
 /-- a plugin takes the check over only by declaring the trusted-identity capability in its exact
-spelling, and then its verdict is the result -/
+spelling, and then its verdict is the result - under a statement that applies -/
 def pluginClauses (i : Input) (o : Obs) : Clauses :=
-  [ ("plugin_owning_trusted_identity_decides", nativeCheck i || o.pass == pluginVerdict i),
+  [ ("plugin_owning_trusted_identity_decides", nativeCheck i || !(applicable i).isSome || o.pass == pluginVerdict i),
     ("plugin_without_an_exactly_spelled_verification_capability_is_refused", !refused i || !o.pass) ]
+
+/-- the statement the caller names is the one whose identities decide (this is what `Input.identities`
+says for every clause above); a name no statement carries - be it a letter-case or white-space
+variant of one that a statement does carry - selects nothing, and nothing passes -/
+def statementClauses (i : Input) (o : Obs) : Clauses :=
+  [ ("no_applicable_statement_nothing_passes", (applicable i).isSome || !o.pass) ]
 
 /-- the assumption that connects the rendered and the minted subject -/
 def assumptionClauses (i : Input) : Clauses :=
@@ -319,7 +393,7 @@ def assumptionClauses (i : Input) : Clauses :=
 /-- the identity clauses apply whenever no plugin owns the trusted-identity capability - in
 particular with no plugin and with a plugin that declares the revocation capability only -/
 def clauses (i : Input) (o : Obs) : Clauses :=
-  guarded (nativeCheck i) (coreClauses i o ++ mintedClauses i o) ++ pluginClauses i o ++ assumptionClauses i
+  guarded (nativeCheck i) (coreClauses i o ++ mintedClauses i o) ++ pluginClauses i o ++ statementClauses i o ++ assumptionClauses i
 
 def Holds (i : Input) (o : Obs) : Bool := (clauses i o).holds
 
